@@ -142,7 +142,7 @@ def r07_transfer_once(ctx):
         X = {x for x in cfg.stmt_nodes() if x.kind == 'stmt' and isinstance(x.ast, ast.Assign) and ctx.canon(x.ast.targets[0], f) == 'E.exhausted'}
         oki = bool(X) and all(ctx.canon(x.ast.value, f) == 'E.V0' for x in X) and not any(x in cfg.nodes_in(ri.main_loop()) for x in X)
         users = {x for x in cfg.stmt_nodes() if x not in X and any(ctx.canon(c.func, f) in ('E.logAction', 'E.newRound') or
-                                                                (isinstance(c.func, ast.Name) and c.func.id == 'transfer') for c in calls_at(x))}
+                                                                (isinstance(c.func, ast.Name) and c.func.id == ri.helper(ctx, 'transfer').name) for c in calls_at(x))}
         early = cfg.reach([cfg.entry], avoid=X, include_start=True) & users
         ctx.check(oki and not early, R, f.node, f, 'the non-transferable total of rule %s starts at zero, once, before anything is recorded or transferred' % ri.short,
                   'E.exhausted = V0 dominates the first logAction/newRound/transfer and is outside the main loop',
@@ -183,7 +183,7 @@ def _block_of(st):
     return None
 
 
-def _transfer_loop_for(ctx, f, cand_text, before_stmt, list_name=None):
+def _transfer_loop_for(ctx, f, cand_text, before_stmt, list_name=None, tname='transfer'):
     """a ballot loop in the same block, before `before_stmt`, filtered on topRank == <cand>.cid (or `in` the
     cid list of the same candidate list) whose body calls transfer(b) for every selected ballot"""
     blk = _block_of(before_stmt)
@@ -206,7 +206,7 @@ def _transfer_loop_for(ctx, f, cand_text, before_stmt, list_name=None):
         if tf is None:
             continue
         calls = [s for s in body if isinstance(s, ast.Expr) and isinstance(s.value, ast.Call) and isinstance(s.value.func, ast.Name)
-                 and s.value.func.id == 'transfer' and unparse(s.value.args[0]) == bvar]
+                 and s.value.func.id == tname and unparse(s.value.args[0]) == bvar]
         if not calls:
             continue
         if tf[0] == 'eq' and tf[1] == cand_text:
@@ -265,7 +265,7 @@ def r08_reset_pairing(ctx):
             for node, kind, cand in _vote_stores(ctx, g):
                 nstores += 1
                 st = ctx.repo.enclosing_stmt(node)
-                if g.name == 'transfer':
+                if g is ri.helper(ctx, 'transfer'):
                     continue           # R07
                 if kind == 'aug':
                     # the initial tally: a ballot loop over all of E.ballots crediting b.topCand with b.vote
@@ -297,9 +297,10 @@ def r08_reset_pairing(ctx):
                 if isinstance(loopc, ast.For) and isinstance(loopc.target, ast.Name) and loopc.target.id == cand \
                         and isinstance(loopc.iter, ast.Name):
                     list_name = loopc.iter.id
-                L = _transfer_loop_for(ctx, g, cand, anchor, None)
+                tname = ri.helper(ctx, 'transfer').name
+                L = _transfer_loop_for(ctx, g, cand, anchor, None, tname)
                 if L is None and list_name is not None:
-                    L = _transfer_loop_for(ctx, g, cand, loopc, list_name)
+                    L = _transfer_loop_for(ctx, g, cand, loopc, list_name, tname)
                 what = 'a tally is reset to %s only after every ballot standing to that candidate has been passed on' % \
                        ('zero' if kind == 'zero' else 'the quota')
                 ctx.check(L is not None, R, st, g, what,
@@ -370,11 +371,12 @@ def r08_reset_pairing(ctx):
     ctx.floor(R, 'tally stores', nstores, 22)
 
 
-def _vote_stores_in(ctx, stmt):
+def _vote_stores_in(ctx, stmt, f=None):
     out = []
+    f = f or ctx.repo.enclosing_func(stmt)
     for n in ast.walk(stmt):
         if isinstance(n, ast.Assign) and len(n.targets) == 1 and isinstance(n.targets[0], ast.Attribute) and n.targets[0].attr == 'vote':
-            v = unparse(n.value)
+            v = ctx.canon(n.value, f) if f is not None else unparse(n.value)
             out.append((n, 'zero' if v in ('V0', 'E.V0') else ('quota' if v == 'E.quota' else 'other'), unparse(n.targets[0].value)))
         elif isinstance(n, ast.Call) and isinstance(n.func, ast.Attribute) and n.func.attr == 'zeroVote':
             out.append((n, 'zero', unparse(n.func.value)))
@@ -439,7 +441,7 @@ def r09_reweighting(ctx):
                 # followed by transfer(b) in the same body; then X.vote = E.quota after the loop
                 idx = loop.body.index(st)
                 nxt = loop.body[idx + 1] if idx + 1 < len(loop.body) else None
-                tr_ok = isinstance(nxt, ast.Expr) and unparse(nxt.value) == 'transfer(%s)' % bexpr
+                tr_ok = isinstance(nxt, ast.Expr) and unparse(nxt.value) == '%s(%s)' % (ri.helper(ctx, 'transfer').name, bexpr)
                 blk = _block_of(loop)
                 li = [i for i, x in enumerate(blk) if x is loop][0]
                 after = blk[li + 1] if li + 1 < len(blk) else None
@@ -482,6 +484,35 @@ def r09_reweighting(ctx):
 # R19
 # ---------------------------------------------------------------------------
 
+def _multiplier_aliases(f):
+    """locals of f or of an enclosing function whose every definition is `<x>.multiplier`"""
+    out = set()
+    g = f
+    while g is not None:
+        for nm, defs in g.assigns().items():
+            if defs and all(isinstance(v_, ast.Attribute) and v_.attr == 'multiplier' for v_, _st in defs):
+                out.add(nm)
+        g = g.parent
+    return out
+
+
+def _ballot_vars(ctx, f):
+    """names of f that hold a ballot: loop variables over E.ballots / E.ballotsEqual (possibly filtered) and a
+    parameter on which .advance() / .exhausted / .topCand is used"""
+    out = set()
+    for n in f.own_nodes():
+        if isinstance(n, ast.For) and isinstance(n.target, ast.Name) and _is_ballot_iter(ctx, f, n.iter):
+            out.add(n.target.id)
+        if isinstance(n, (ast.GeneratorExp, ast.ListComp)):
+            for g in n.generators:
+                if isinstance(g.target, ast.Name) and ctx.canon(g.iter, f) in ('E.ballots', 'E.ballotsEqual'):
+                    out.add(g.target.id)
+        if isinstance(n, ast.Attribute) and n.attr in ('advance', 'exhausted', 'topCand', 'topRank') and isinstance(n.value, ast.Name) \
+                and n.value.id in f.params:
+            out.add(n.value.id)
+    return out
+
+
 def r19_multiplier_last(ctx):
     R = 'R19'
     repo = ctx.repo
@@ -498,9 +529,11 @@ def r19_multiplier_last(ctx):
     for f in repo.funcs.values():
         if not f.module.name.startswith('droop'):
             continue
+        # locals that merely alias a line's multiplier (`multiplier = b.multiplier`)
+        malias = _multiplier_aliases(f)
         for x in f.own_nodes():
             if isinstance(x, ast.BinOp) and isinstance(x.op, ast.Mult) and \
-                    any(isinstance(s, ast.Attribute) and s.attr == 'multiplier' or isinstance(s, ast.Name) and s.id == 'multiplier'
+                    any(isinstance(s, ast.Attribute) and s.attr == 'multiplier' or isinstance(s, ast.Name) and s.id in malias
                         for s in (x.left, x.right)):
                 if f.module.name == 'droop.profile':
                     continue
@@ -544,9 +577,12 @@ def r19_multiplier_last(ctx):
                             tgt, val = e, st.value
             if tgt is None:
                 continue
+            bvars = _ballot_vars(ctx, f)
+            malias = _multiplier_aliases(f)
             bad = [s for s in ast.walk(val) if (isinstance(s, ast.Attribute) and s.attr == 'multiplier')
+                   or (isinstance(s, ast.Name) and s.id in malias)
                    or (isinstance(s, ast.Attribute) and s.attr == 'vote' and isinstance(s.value, ast.Name)
-                       and s.value.id in ('b', 'ballot'))]
+                       and s.value.id in bvars)]
             ctx.check(not bad, R, st, f, 'transfer values and keep factors are computed per ballot paper, without the multiplier',
                       '`%s` has no multiplier among its inputs' % stmt_text(st),
                       '`%s` uses %s: the weight of a ballot line would depend on how many identical ballots it stands for'
